@@ -570,9 +570,10 @@ class Half:
 
 
 class KInterp:
-    def __init__(s, mod, lane=0, summaries=None, globals_=None, budget=4000):
+    def __init__(s, mod, lane=0, summaries=None, globals_=None, budget=4000, all_lanes=False):
         s.mod = mod
         s.lane = lane
+        s.all_lanes = all_lanes      # track every element of a vector (routines that combine lanes), not only `lane`
         s.summ = summaries or {}
         s.gconst = globals_ or {}
         s.n = 0
@@ -645,6 +646,10 @@ class KInterp:
             if es != 8:
                 raise Undecided('vector load of %d-byte elements' % es)
             out = [None] * n
+            if s.all_lanes:
+                for i_ in range(n):
+                    out[i_] = s.load_cell(st, KPtr(p.obj, p.off + 8 * i_))
+                return out
             out[s.lane] = s.load_cell(st, KPtr(p.obj, p.off + 8 * s.lane))
             return out
         if ty[0] == 'i' and ty[1] == 64:
@@ -1086,6 +1091,14 @@ class KInterp:
                             res.append((c2, UNK))
                     else:
                         if fx != fy:
+                            if pred in ('eq', 'ne') and isinstance(a, Half) and isinstance(b, Half) and a.j == 1 and b.j == 1:
+                                # equality of the two bit patterns: the shifted one's pattern is value + 2^31 (mod 2^32)
+                                xs = [(c2, KV(x.p, x.lo, x.hi, 0, None, 32))] if not fx else s._flip(c2, x, 1 << 31, 32)
+                                for c3, fa in xs:
+                                    ys = [(c3, KV(y.p, y.lo, y.hi, 0, None, 32))] if not fy else s._flip(c3, y, 1 << 31, 32)
+                                    for c4, fb in ys:
+                                        res += s.cmp_u(c4, pred, fa, fb)
+                                continue
                             raise Undecided('unsigned 32-bit compare of a shifted and an unshifted half')
                         res += s.cmp_u(c2, pred, x, y)
             return res
